@@ -17,7 +17,7 @@ EXPLANATION = (
 
 
 def check(ctx, run):
-    run.rules_run = ['R05.1', 'R05.2', 'R05.4', 'R05.5', 'R05.6', 'R05.7', 'R05.8']
+    run.rules_run = ['R05.1', 'R05.2', 'R05.4', 'R05.5', 'R05.6', 'R05.7', 'R05.8', 'R05.9']
     walkers.w_init(ctx, run, 'R05.1', floor=15)
     walkers.w_advance(ctx, run, 'R05.2', floor=24)
     accessors.r05_4(ctx, run)
@@ -25,4 +25,5 @@ def check(ctx, run):
     accessors.r05_6(ctx, run)
     accessors.r05_7(ctx, run)
     accessors.r05_8(ctx, run)
+    accessors.r05_9(ctx, run)
     return report.finish(run, level='other', explanation=EXPLANATION, assumptions=["A1: documents are valid JSONB (the property's precondition)", "A2: no wrap of usize offsets"])
